@@ -152,7 +152,7 @@ pub fn run(tier: Tier) -> BResult {
         cells.push((true, libc::SIGINT, st, vec![Op::Deliver, Op::False, Op::Deliver, Op::Deliver]));
     }
     let cells2 = cells.clone();
-    let probes = run_cells(cells.len(), 16, Duration::from_secs(10), move |i, e| {
+    let probes = run_cells(cells.len(), 16, Duration::from_secs(30), move |i, e| {
         let (o, s, st, h) = &cells2[i];
         child(*o, *s, *st, h, e);
     });
